@@ -53,24 +53,35 @@ N = 24
 
 
 def richardson(f, x, h, order=1):
-    """4th-order estimate of f'(x) (order=1) or f''(x) (order=2) with steps h and h/2; returns (estimate, disagreement)."""
+    """4th-order estimate of f'(x) (order=1) or f''(x) (order=2) with steps h, h/2, h/4; returns (estimate, its uncertainty)."""
     def d(hh):
         if order == 1:
             return (f(x + hh) - f(x - hh)) / (2 * hh)
         return (f(x + hh) - 2 * f(x) + f(x - hh)) / (hh * hh)
 
-    d1, d2 = d(h), d(h / 2)
-    est = (4 * d2 - d1) / 3
-    return est, (d2 - d1).abs()
+    # two successive 4th-order extrapolations (h, h/2) and (h/2, h/4): the second is the estimate, their difference (about 15x the error that
+    # is left in the second) is the oracle's own uncertainty - it is large exactly where h is not small against the scale sigma*sqrt(t) of the price
+    d1, d2, d3 = d(h), d(h / 2), d(h / 4)
+    est1 = (4 * d2 - d1) / 3
+    est2 = (4 * d3 - d2) / 3
+    return est2, (est2 - est1).abs()
 
 
-def compare(ctx, mon, name, got, est, dis, scale, sig, pts, rel=2e-6, ab=1e-8):
+def compare(ctx, mon, name, got, est, dis, scale, sig, pts, rel=2e-6, ab=1e-8, alt=None):
+    """`alt` = a second (estimate, uncertainty) pair taken at the evaluation point the library really uses (strike rounded to the default dtype,
+    DESIGN 8.2): an element is held if it agrees with either, violated only if both oracles are reliable and it agrees with neither."""
     bound = rel * est.abs() + ab * scale
-    reliable = dis <= 200 * bound  # Richardson removes the h^2 term; |d(h/2)-d(h)| is ~3x that removed term
+    reliable = dis <= 50 * bound  # dis = difference of the two extrapolations (see richardson)
     resid = (got - est).abs()
-    # the residual of the extrapolated value is ~ (disagreement)^2-order; be conservative: require dis small in absolute terms too
     reliable &= dis <= 1e-3 * (est.abs() + scale)
-    bad = reliable & ~(resid <= bound + 0.05 * dis)
+    okay = reliable & (resid <= bound + dis)
+    if alt is not None:
+        est2, dis2 = alt
+        bound2 = rel * est2.abs() + ab * scale
+        reliable2 = (dis2 <= 50 * bound2) & (dis2 <= 1e-3 * (est2.abs() + scale))
+        okay = okay | (reliable2 & ((got - est2).abs() <= bound2 + dis2))
+        reliable = (reliable & reliable2) | okay
+    bad = reliable & ~okay
     nrel = int(reliable.sum())
     ctx.seen(mon, got.numel())
     if int((~reliable).sum()):
@@ -181,12 +192,18 @@ def drv_bs(ctx, k, rng):
                     break
             else:
                 ctx.ok("greek.alias_invariant", sig=(kind, via))
+    # Greeks obtained through autogreek form spot = exp(log_moneyness) * as_tensor(strike): a python-float strike is rounded to the default dtype
+    # (float32) there, so the derivative is taken at a spot shifted by up to 6e-8 relatively - visible where gamma * S / delta is large
+    K_held = float(torch.as_tensor(K))
+    S_held = S * (K_held / K)
     with torch.no_grad():
         hS = 2e-3 * S
         est, dis = richardson(price_S, S, hS, 1)
-        compare(ctx, mon, "delta", g["delta"], est, dis, scale_p / S, base + ("delta",), pts)
+        alt = richardson(price_S, S_held, hS, 1) if K_held != K else None
+        compare(ctx, mon, "delta", g["delta"], est, dis, scale_p / S, base + ("delta",), pts, alt=alt)
         est, dis = richardson(price_S, S, 4e-3 * S, 2)
-        compare(ctx, mon, "gamma", g["gamma"], est, dis, scale_p / S.square(), base + ("gamma",), pts, rel=2e-5, ab=1e-7)
+        alt = richardson(price_S, S_held, 4e-3 * S, 2) if K_held != K else None
+        compare(ctx, mon, "gamma", g["gamma"], est, dis, scale_p / S.square(), base + ("gamma",), pts, rel=2e-5, ab=1e-7, alt=alt)
         est, dis = richardson(lambda x: price(s, tt, x), v, 2e-3 * v, 1)
         compare(ctx, mon, "vega", g["vega"], est, dis, scale_p / v, base + ("vega",), pts)
         est, dis = richardson(lambda x: price(s, x, v), tt, 2e-3 * tt, 1)
